@@ -17,8 +17,8 @@ Template language (everything else in the template is copied verbatim):
   //@| sub "<old>" => "<new>" because <reason>   listed manual rewrite (reported in evidence; avoid)
   //@| rename <new>                    rename the fn (for extracting one generic fn at two instances)
   //@: <text>                          content line of the preceding section
-  //@neg <id>: <text>                  negative control <id>: in variant <id> this text REPLACES the
-                                       previous content/template line; ignored in the normal build
+  //@neg <id> [#k]: <text>             negative control <id>: in variant <id> this text REPLACES the
+                                       previous k (default 1) content/template lines; ignored in the normal build
 
 Rewrites applied by the extractor are a closed list (reported per unit):
   R1 attributes dropped: #[inline..], #[cfg(..)] / #[cfg_attr(..)] / #[derive(..)] / #[repr(..)] /
@@ -79,6 +79,7 @@ def parse_template(text, base_dir='.'):
     sec = None       # current section (list of content lines)
     meta = {'unit': None, 'props': [], 'obligs_decl': []}
     last_line_holder = None   # (list, index) of the last content line for //@neg
+    holders = []
 
     def close():
         nonlocal cur, sec
@@ -155,12 +156,18 @@ def parse_template(text, base_dir='.'):
                 raise TemplateError('line %d: content line without section' % ln)
             sec.append([line.split('//@:', 1)[1], {}])
             last_line_holder = sec[-1]
+            holders.append(sec[-1])
             continue
-        m = re.match(r'//@neg\s+(\w+):(.*)$', s)
+        m = re.match(r'//@neg\s+(\w+)(?:\s+#(\d+))?:(.*)$', s)
         if m:
             if last_line_holder is None:
                 raise TemplateError('line %d: //@neg without a preceding line' % ln)
-            last_line_holder[1][m.group(1)] = m.group(2)
+            k = int(m.group(2) or 1)
+            if k > len(holders):
+                raise TemplateError('line %d: //@neg #%d reaches before the section start' % (ln, k))
+            for h in holders[-k:-1]:
+                h[1][m.group(1)] = ''
+            holders[-1][1][m.group(1)] = m.group(3)
             continue
         if s.startswith('//@'):
             raise TemplateError('line %d: unknown directive: %s' % (ln, s))
@@ -168,6 +175,7 @@ def parse_template(text, base_dir='.'):
         node = [line, {}]
         nodes.append(('text', node))
         last_line_holder = node
+        holders.append(node)
     close()
     return meta, nodes
 
